@@ -165,6 +165,35 @@ def check_csv_migration(variant='newline_terminated'):
         k += 1
 
 
+def check_existing_targets():
+    """budgets that already have a merchants.rules (hand-written, not yet named in settings) and / or an older .bak: a completed migration keeps the
+    content of every file that was there (in place or under a backup name)"""
+    for have_rules, have_bak in ((True, False), (False, True), (True, True)):
+        b = make_budget()
+        try:
+            mine = '# my own rules\n[Mine]\nmatch: contains("MINE")\ncategory: Own\nsubcategory: Rules\n'
+            old = 'Pattern,Merchant,Category,Subcategory\nOLDBACKUP,Old,Old,Old\n'
+            if have_rules:
+                b.write('config/merchants.rules', mine)
+            if have_bak:
+                b.write('config/merchant_categories.csv.bak', old)
+            before = {f: open(os.path.join(b.config, f), 'rb').read() for f in os.listdir(b.config)}
+            O.case(('existing', have_rules, have_bak))
+            import contextlib
+            import io
+            with contextlib.redirect_stdout(io.StringIO()):
+                cli._migrate_csv_to_rules(os.path.join(b.config, 'merchant_categories.csv'), b.config, backup=True)
+            after = [open(os.path.join(b.config, f), 'rb').read() for f in os.listdir(b.config)]
+            for name, content in before.items():
+                if name == 'settings.yaml':
+                    continue
+                if content not in after:
+                    O.fail('C15.csv_migration.completed.existing_file_content_lost', {'function': '_migrate_csv_to_rules', 'existing': name, 'had_rules_file': have_rules, 'had_bak': have_bak},
+                           'content of %s kept in place or under a backup name' % name, sorted(os.listdir(b.config)), 'cli._migrate_csv_to_rules on a budget that already has this file')
+        finally:
+            b.close()
+
+
 def check_layout_migration():
     k = 0
     while k < 10:
@@ -214,13 +243,16 @@ def check_layout_migration():
 
 def main():
     if O.witness:
-        if O.witness.get('function') == 'migrate_v0_to_v1':
+        if 'existing' in O.witness:
+            check_existing_targets()
+        elif O.witness.get('function') == 'migrate_v0_to_v1':
             check_layout_migration()
         else:
             check_csv_migration(O.witness.get('settings', 'newline_terminated'))
         O.finish()
     for variant in SETTINGS_VARIANTS:
         check_csv_migration(variant)
+    check_existing_targets()
     check_layout_migration()
     O.sample({'function': '_migrate_csv_to_rules', 'event': 'crash', 'primitive_index': 3})
     O.finish()
